@@ -1,9 +1,14 @@
 /* Freestanding 32-bit driver for src/core/ascon-asm-i386.S (C18).  No libc.
  * Protocol on stdin/stdout, one record per call:
  *   in : 40 bytes raw state (SLICED32 layout, little-endian words), u32 first_round,
- *        u32 ebx, esi, edi, ebp  (values to plant in the callee-saved registers)
+ *        u32 ebx, esi, edi, ebp  (values to plant in the callee-saved registers),
+ *        u32 x87 control word, u32 MXCSR (planted before the call)
  *   out: 40 bytes raw state after the call, u32 ebx, esi, edi, ebp after the call,
- *        u32 esp_delta (esp after return minus esp before the call), u32 guard_ok
+ *        u32 esp_delta (esp after return minus esp before the call), u32 guard_ok,
+ *        u32 x87 tag word, u32 x87 control word, u32 EFLAGS, u32 MXCSR after the call
+ * The i386 System V ABI wants the x87 register stack empty (tag word 0xFFFF, so no
+ * MMX use without emms), the direction flag clear, and the x87 control word and the
+ * MXCSR control bits preserved when a function returns.
  */
 typedef unsigned int u32;
 typedef unsigned char u8;
@@ -44,6 +49,8 @@ struct frame {
     u32 guard_hi[8];
 };
 
+u32 fpu_cw_in __attribute__((used)), mxcsr_in __attribute__((used)), mxcsr_out __attribute__((used)), eflags_out __attribute__((used));
+u32 fpu_env[7] __attribute__((used));
 u32 regs_in[4] __attribute__((used)), regs_out[4] __attribute__((used)), esp_before __attribute__((used)), esp_after __attribute__((used)), arg_state __attribute__((used)), arg_round __attribute__((used));
 
 static void call_permute(void)
@@ -51,6 +58,10 @@ static void call_permute(void)
     __asm__ volatile(
         "pushl %%ebx\n\tpushl %%esi\n\tpushl %%edi\n\tpushl %%ebp\n\t"
         "movl %%esp, esp_before\n\t"
+        "fninit\n\t"
+        "fldcw fpu_cw_in\n\t"
+        "ldmxcsr mxcsr_in\n\t"
+        "cld\n\t"
         "pushl arg_round\n\t"
         "pushl arg_state\n\t"
         "movl regs_in, %%ebx\n\t"
@@ -58,6 +69,12 @@ static void call_permute(void)
         "movl regs_in+8, %%edi\n\t"
         "movl regs_in+12, %%ebp\n\t"
         "call ascon_permute\n\t"
+        "pushfl\n\t"
+        "popl eflags_out\n\t"
+        "cld\n\t"
+        "stmxcsr mxcsr_out\n\t"
+        "fnstenv fpu_env\n\t"
+        "fninit\n\t"
         "movl %%ebx, regs_out\n\t"
         "movl %%esi, regs_out+4\n\t"
         "movl %%edi, regs_out+8\n\t"
@@ -72,8 +89,8 @@ static void call_permute(void)
 void _start(void)
 {
     static struct frame f;
-    static u8 rec[40 + 4 + 16];
-    static u8 out[40 + 16 + 8];
+    static u8 rec[40 + 4 + 16 + 8];
+    static u8 out[40 + 16 + 8 + 16];
     int i;
     for (;;) {
         u32 ok = 1;
@@ -84,12 +101,18 @@ void _start(void)
         arg_state = (u32)f.state;
         arg_round = *(u32 *)(rec + 40);
         for (i = 0; i < 4; ++i) regs_in[i] = *(u32 *)(rec + 44 + 4 * i);
+        fpu_cw_in = *(u32 *)(rec + 60);
+        mxcsr_in = *(u32 *)(rec + 64);
         call_permute();
         for (i = 0; i < 8; ++i) if (f.guard_lo[i] != 0xC3C3C3C3u || f.guard_hi[i] != 0x3C3C3C3Cu) ok = 0;
         for (i = 0; i < 40; ++i) out[i] = ((u8 *)f.state)[i];
         for (i = 0; i < 4; ++i) *(u32 *)(out + 40 + 4 * i) = regs_out[i];
         *(u32 *)(out + 56) = esp_after - esp_before;
         *(u32 *)(out + 60) = ok;
+        *(u32 *)(out + 64) = fpu_env[2] & 0xFFFFu;
+        *(u32 *)(out + 68) = fpu_env[0] & 0xFFFFu;
+        *(u32 *)(out + 72) = eflags_out;
+        *(u32 *)(out + 76) = mxcsr_out;
         write_all(out, sizeof(out));
     }
     sys3(1, 0, 0, 0);
